@@ -85,7 +85,7 @@ func (g *unigen) defsKW() string {
 }
 
 var anchorNames = []string{"t", "t", "u", "A1", "x-y"}
-var odd = []string{"a/b", "~", "a b", "%25", "é", "0", "-", ""}
+var odd = []string{"a/b", "~", "a b", "%25", "é", "0", "-", "", "a+b", "c++", "a&b=c", "x;y", "q?r"}
 
 // NewUniverse generates a topology for C03.
 func NewUniverse(r *rand.Rand, d7 bool) *Universe {
@@ -215,6 +215,9 @@ func (g *unigen) newContainer(d *udoc, uri, idSpelling string) *ures {
 	g.nN++
 	res.node["not"] = map[string]any{"const": res.nmarker}
 	if idSpelling != "" {
+		if !strings.HasPrefix(idSpelling, "urn:") && g.r.IntN(6) == 0 {
+			idSpelling += "#" // an empty fragment is allowed in $id (and recommended by draft-07 for roots): still a base URI, not an anchor
+		}
 		res.node["$id"] = idSpelling
 	}
 	// leaves: marked targets under $defs, some with anchors (same names in different resources = decoys)
